@@ -134,7 +134,21 @@ def parser_tables():
         if not (isinstance(c, ast.Call) and _name_of(c.func) == "frozenset" and isinstance(c.args[0], (ast.List, ast.Tuple))):
             raise TableError(f"{name} is not frozenset([...])")
         return [e.value if isinstance(e, ast.Constant) else _name_of(e) for e in c.args[0].elts]
+    # the leading-zero test of parse_selector_list: the `if` whose body raises "leading zero ..."
+    lz = None
+    for fn in cls.body:
+        if isinstance(fn, ast.FunctionDef) and fn.name == "parse_selector_list":
+            for n in ast.walk(fn):
+                if isinstance(n, ast.If) and any(isinstance(x, ast.Constant) and isinstance(x.value, str) and "leading zero" in x.value for x in ast.walk(ast.Module(body=n.body, type_ignores=[]))):
+                    guard = None
+                    for outer in ast.walk(fn):
+                        if isinstance(outer, ast.If) and n in outer.body and "TOKEN_INT" in ast.unparse(outer.test):
+                            guard = ast.unparse(outer.test)
+                    lz = ast.unparse(n.test).replace("stream.current.value", "v") + (" | under: " + guard.replace("stream.current.kind", "kind") if guard else " | under: ?")
+    if lz is None:
+        raise TableError("leading-zero test of parse_selector_list not found")
     return {
+        "leading_zero": lz,
         "prec_consts": prec_consts, "precedences": precedences, "binops": binops,
         "comparison": fset("COMPARISON_OPERATORS"), "infix_literal": fset("INFIX_LITERAL_OPERATORS"), "prefix": fset("PREFIX_OPERATORS"),
     }
@@ -389,6 +403,8 @@ def render_lean(t) -> str:
     a("def parserPrecConsts : List (String × Nat) := " + llist(f"({lstr(k)}, {v})" for k, v in sorted(p["prec_consts"].items())))
     a("/-- parse.py: Parser.BINARY_OPERATORS (token kind → operator spelling) -/")
     a("def binaryOperators : List (String × String) := " + llist(f"({lstr(k)}, {lstr(v)})" for k, v in p["binops"]))
+    a("/-- parse.py: the leading-zero test applied to the text `v` of an index token in a bracketed selection -/")
+    a(f"def indexLeadingZeroTest : String := {lstr(p['leading_zero'])}")
     a("def comparisonOperators : List String := " + llist(lstr(x) for x in sorted(p["comparison"])))
     a("def infixLiteralOperators : List String := " + llist(lstr(x) for x in sorted(p["infix_literal"])))
     a("def prefixOperators : List String := " + llist(lstr(x) for x in sorted(p["prefix"])))
